@@ -115,6 +115,13 @@ def run_stages(case, deadline=60.0):
         snap = [a.copy() for a in (P1, P2, V1, V2)]
         n = P1.shape[0]; irv = Irving(zero_indexed=case.get("zi", True))
         iv1, iv2 = IntegerValuationProfile.of(V1), IntegerValuationProfile.of(V2)
+        if case.get("prelude"):        # the same Irving object solved another instance first
+            try:
+                q = case["prelude"]
+                irv.scf(IntegerValuationProfile.of(np.array(q["V1"], dtype=np.int64)), IntegerValuationProfile.of(np.array(q["V2"], dtype=np.int64)),
+                        StrictCompleteProfile.of(np.array(q["P1"], dtype=np.int64)), StrictCompleteProfile.of(np.array(q["P2"], dtype=np.int64)))
+            except Exception:  # noqa
+                pass
         if case.get("with_profiles", True):
             outm = irv.scf(iv1, iv2, StrictCompleteProfile.of(P1), StrictCompleteProfile.of(P2))
         else:
